@@ -49,12 +49,24 @@ pub fn guarded<R>(armed: Option<(usize, u32)>, f: impl FnOnce() -> R) -> (Result
     let res = res.map_err(|p| {
         if let Some(f) = p.downcast_ref::<SimFault>() {
             Caught::Fault(*f)
-        } else if let Some(s) = p.downcast_ref::<String>() {
-            Caught::Panic(s.clone())
-        } else if let Some(s) = p.downcast_ref::<&'static str>() {
-            Caught::Panic((*s).to_string())
         } else {
-            Caught::Panic("<non-string panic payload>".into())
+            // the message lives on the heap the system under test may just have overwritten:
+            // copy it defensively (a garbled String must not take the harness down)
+            let msg = catch_unwind(AssertUnwindSafe(|| {
+                if let Some(s) = p.downcast_ref::<String>() {
+                    if s.len() < 4096 { s.clone() } else { "<oversized panic message>".to_string() }
+                } else if let Some(s) = p.downcast_ref::<&'static str>() {
+                    (*s).to_string()
+                } else {
+                    "<non-string panic payload>".to_string()
+                }
+            }))
+            .unwrap_or_else(|_| "<unreadable panic message>".to_string());
+            if msg.starts_with('<') {
+                // do not run the destructor of a payload that could not be read
+                std::mem::forget(p);
+            }
+            Caught::Panic(msg)
         }
     });
     (res, counts, fired)
